@@ -281,8 +281,12 @@ static void GC_Recurse(struct GC* gc, var ptr);
 
 static void GC_Mark_And_Recurse(void* _gc, void* ptr) {
   struct GC* gc = _gc;
-  GC_Mark_Item(gc, ptr);
-  GC_Recurse(gc, ptr);
+  /* a registered object is traced by GC_Mark_Item, once, when first marked */
+  if (GC_Mem_Ptr(gc, ptr)) {
+    GC_Mark_Item(gc, ptr);
+  } else {
+    GC_Recurse(gc, ptr);
+  }
 }
 
 static void GC_Recurse(struct GC* gc, var ptr) {
